@@ -206,8 +206,9 @@ def classify(case):
             out = run_model([dumps([Sym("c12_class"), opt(d, irwire.enc_ir), astwire.enc_stmt(tree)])])[0]
             r = m.parse.function(copy.deepcopy(tree))
             out_impl = run_model([dumps([Sym("c12_class_ir"), irwire.enc_ir(r)])])[0]
-            if out != out_impl:        # the model must predict the same failure
+            if out != "unmodelled" and out != out_impl:        # the model must predict the same failure
                 return None
+            out = out_impl
         e = loads(out)
         return None if e == "none" else unhx(e[1])
     except Exception:  # noqa
